@@ -39,8 +39,11 @@ def run(ctx):
     for cfg in cfgs:
         facts = ctx.facts(cfg)
         roles = Roles(facts)
-        b_eq, e_eq, f_eq, idx_eq, neg_eq = bound_predicate(roles, "===")
-        b_ne, e_ne, f_ne, idx_ne, neg_ne = bound_predicate(roles, "!==")
+        issues = []
+        b_eq, e_eq, f_eq, idx_eq, neg_eq = bound_predicate(roles, "===", issues)
+        b_ne, e_ne, f_ne, idx_ne, neg_ne = bound_predicate(roles, "!==", issues)
+        for (hb, bi, si, what) in issues:
+            ctx.fail("K1.negation", "flag-independent result in %s" % hb.key.split("::", 1)[1], what, where=hb.where(bi, si), fn=hb.key)
         for op, e, idx in (("===", e_eq, idx_eq), ("!==", e_ne, idx_ne)):
             ctx.check(e.num == ("Exactly", 2) and idx == [0, 1], "K1.binding", "%s takes exactly two operands, (operand 0, operand 1) in order (%s)" % (op, cfg),
                       "%s: arity %s, operand indices %s — passing the same operand twice would make the identity shortcut fire" % (op, e.num, idx), where=facts.body(e.table.const_key).where(), nontrivial=True)
